@@ -2,6 +2,8 @@
 
 from __future__ import annotations
 
+import ast
+
 from .. import oracle
 from .. import paths as P
 from .. import terms as T
@@ -25,6 +27,146 @@ MOD = "typelib.py.classes"
 CLS = ("param", "cls")
 STACK = ("ref", f"{MOD}._stack")
 RELEASE = {"clear", "discard", "remove"}
+
+
+def _sameness(cond, pol):
+    """Does `cond` (with this polarity) say that the re-bound object IS the original (True), that it is another one (False),
+    or neither (None)?"""
+    if cond[0] == "not":
+        return _sameness(cond[1], not pol)
+    if cond[0] == "cmp" and cond[1] in ("is", "isnot"):
+        return pol if cond[1] == "is" else not pol
+    if cond[0] == "call" and T.refname(cond[1]) in ("builtins.all", "builtins.any") and len(cond[2]) == 1 and cond[2][0][0] == "comp":
+        inner = _sameness(cond[2][0][2], True)
+        if inner is None:
+            return None
+        if T.refname(cond[1]) == "builtins.all":
+            # all(a is b): same when true, changed when false; all(a is not b) true: (all) changed
+            return pol if inner else (False if pol else None)
+        # any(a is not b): changed when true, same when false; any(a is b) says nothing about the rest
+        return (not pol) if not inner else None
+    return None
+
+
+def _leaves(term, conds=()):
+    if term[0] == "ifexp":
+        yield from _leaves(term[2], conds + ((term[1], True),))
+        yield from _leaves(term[3], conds + ((term[1], False),))
+    else:
+        yield conds, term
+
+
+def rebind_rules(prog, rep, wrap_fn):
+    """The function that re-binds the closure cells (repair 93): what it must do for the slotted class to behave like the
+    original -- and for the original to go on behaving like itself."""
+    rule = "R19.3"
+    mod = wrap_fn.module
+    g = None
+    for cn in sorted(E.callees(prog, wrap_fn)):
+        cand = prog.functions.get(cn)
+        if cand is None or cand.module is not mod:
+            continue
+        try:
+            cps = P.paths_of(prog, cand)
+        except Exception:
+            continue
+        if any(T.contains(tm, lambda x: T.is_call_to(x, "types.FunctionType", "types.CellType") or (x[0] == "attr" and x[2] == "cell_contents")) for pth in cps for tm in pth.all_terms()):
+            g = cand
+            break
+    if g is None or len(g.params) < 3:
+        return  # (no separate re-binding function: `class-cells` above has decided what there is to decide)
+    gps = P.paths_of(prog, g)
+    member, old, new = (("param", x) for x in g.params[:3])
+    # (a) the cells of the original's functions are never written: the original class goes on using them
+    written = []
+    for pth in gps:
+        for e in pth.events:
+            if e[0] == "setattr" and e[2] == "cell_contents" and T.contains(e[1], lambda x: x[0] == "attr" and x[2] == "__closure__") and not T.contains(e[1], lambda x: T.is_call_to(x, "types.CellType")):
+                written.append(T.show(e[1])[:50])
+    rep.check(not written, rule, g.qualname, g.loc, "the closure cells of the original's functions are left as they are (the copy gets cells of its own)", f"the cell of the original function is re-pointed in place ({written[:1]}): the function object is shared with the original class, whose generated __setattr__ / __delattr__ and zero-argument super() now refer to the slotted class -- and a second decoration of the same original finds no cell holding it", detail="rebind-leaves-original")
+    # (b) the copy carries everything the original function had
+    need = {"__code__", "__globals__", "__defaults__", "__kwdefaults__", "__dict__", "__annotations__", "__module__", "__qualname__", "__doc__"}
+    wrapper_set = {"__module__", "__qualname__", "__doc__", "__annotations__", "__dict__"}
+    missing_all = None
+    n_copy = 0
+    for pth, r in P.returns(gps):
+        if not T.is_call_to(r, "types.FunctionType"):
+            continue
+        n_copy += 1
+        got = set()
+        for a in list(r[2]) + [v for _, v in r[3]]:
+            if a[0] == "attr" and a[1] == member:
+                got.add(a[2])
+        if len(r[2]) + len(r[3]) >= 5 or any(k == "closure" for k, _ in r[3]):
+            got.add("closure")
+        for e in pth.events:
+            if e[0] == "setattr" and e[1] == r and e[3] == ("attr", member, e[2]):
+                got.add(e[2])
+            if e[0] == "eval":
+                x = e[1]
+                if x[0] == "call" and x[1][0] == "attr" and x[1][2] == "update" and x[1][1] == ("attr", r, "__dict__") and x[2][:1] == (("attr", member, "__dict__"),):
+                    got.add("__dict__")
+                if T.is_call_to(x, "functools.update_wrapper") and x[2][:2] == (r, member):
+                    got |= wrapper_set
+                if x[0] == "call" and T.is_call_to(x[1], "functools.wraps") and x[1][2][:1] == (member,) and x[2][:1] == (r,):
+                    got |= wrapper_set
+        miss = (need | {"closure"}) - got
+        missing_all = miss if missing_all is None else (missing_all | miss)
+    if n_copy:
+        rep.check(not missing_all, rule, g.qualname, g.loc, f"the re-bound copy takes code, globals, defaults, keyword defaults, attributes and metadata from the original ({n_copy} exit(s))", f"the re-bound copy of a method does not take over {sorted(missing_all or [])} from the original: a method with keyword-only defaults raises TypeError for the call the original accepts / attributes set on the function (abstract-method markers, __wrapped__) and its annotations are gone", detail="rebind-carries")
+    # (c) methods behind classmethod / staticmethod / property are reached, each accessor of a property, in order
+    rec = [x for pth in gps for tm in pth.all_terms() for x in T.walk(tm) if T.is_call_to(x, g.qualname)]
+    bad_order = [T.show(x)[:60] for x in rec if len(x[2]) < 3 or x[2][1] != old or x[2][2] != new]
+    kinds = {"builtins.classmethod": False, "builtins.staticmethod": False, "builtins.property": False}
+    orient_bad = []
+    skipped = []
+    accessors_bad = []
+    for pth, r in P.returns(gps):
+        tested = set()
+        for a, pol in T.derive_atoms(pth.guards()):
+            if pol and T.is_call_to(a, "builtins.isinstance") and a[2][:1] == (member,) and len(a[2]) == 2:
+                tested |= {T.refname(x) for x in (P.flatten_display(prog, a[2][1]) or [a[2][1]])}
+        tested &= set(kinds)
+        if not tested:
+            continue
+        calls = T.find(r, lambda x: T.is_call_to(x, g.qualname))
+        if calls:
+            for k in tested:
+                kinds[k] = True
+        for c in calls:
+            for conds in T.enclosing_conditions(r, c):
+                if any((not pol) and cnd == c[2][0] for cnd, pol in conds):
+                    skipped.append(T.show(c)[:60])
+        for conds, leaf in _leaves(r):
+            verdicts = [_sameness(c, pol) for c, pol in tuple(conds) + tuple(pth.guards())]
+            if leaf == member and not any(v is True for v in verdicts):
+                orient_bad.append("the original is returned where the parts are not known to be unchanged")
+            if leaf != member and T.contains(leaf, lambda x: T.is_call_to(x, g.qualname)) and any(v is True for v in verdicts):
+                orient_bad.append("a new wrapper is built exactly where nothing changed")
+        if "builtins.property" in tested:
+            for x in T.walk(r):
+                if x[0] in ("tuple", "list") and x[1] and all(y[0] == "attr" and y[1] == member and y[2] in ("fget", "fset", "fdel") for y in x[1]):
+                    if tuple(y[2] for y in x[1]) != ("fget", "fset", "fdel"):
+                        accessors_bad.append(tuple(y[2] for y in x[1]))
+    if rec:
+        rep.check(not bad_order, rule, g.qualname, g.loc, f"the recursion passes (function, old class, new class) on in this order ({len(rec)} call(s))", f"a recursive call passes its arguments on in another order ({bad_order[:1]}): the cell is compared with the wrong object and nothing is re-bound behind a classmethod / staticmethod / property", detail="rebind-recursion-order")
+    unreached = sorted(k.rsplit(".", 1)[1] for k, v in kinds.items() if not v)
+    rep.check(not unreached, rule, g.qualname, g.loc, "functions behind classmethod, staticmethod and property are re-bound too", f"methods wrapped in {unreached} are not looked into: a classmethod using zero-argument super() (alternative constructors) or a property reading __class__ keeps the old class in its cell -- TypeError: super(type, obj): obj must be an instance or subtype of type", detail="rebind-descends")
+    rep.check(not orient_bad and not skipped and not accessors_bad, rule, g.qualname, g.loc, "a wrapper is rebuilt exactly where its function changed, from all accessors in their order", f"{(orient_bad + ['an accessor that exists is skipped (the call is made only for a missing one): ' + x for x in skipped] + ['the accessors are collected as ' + str(a) + ', property() takes (fget, fset, fdel)' for a in accessors_bad])[:1]}", detail="rebind-wrappers")
+    # (d) ... and the re-bound member is stored on the new class exactly where it is another object
+    store_bad = []
+    n_store = 0
+    for pth in P.paths_of(prog, wrap_fn):
+        for e in pth.events:
+            x = e[1] if e[0] == "eval" else None
+            if x is not None and x[0] == "call" and (T.refname(x[1]) or "").endswith("__setattr__") and len(x[2]) == 3 and T.is_call_to(x[2][2], g.qualname):
+                n_store += 1
+                if any(_sameness(c, pol) is True and T.contains(c, lambda z: z == x[2][2]) for c, pol in pth.guards()):
+                    store_bad.append(T.show(x)[:60])
+            if e[0] == "setattr" and T.is_call_to(e[3], g.qualname):
+                n_store += 1
+    if n_store:
+        rep.check(not store_bad, rule, wrap_fn.qualname, wrap_fn.loc, "the re-bound member is stored on the new class where it is a new object", "the re-bound member is stored only where it IS the original (nothing was re-bound): every copy with fresh cells is dropped, the new class keeps the functions that hold the old class", detail="rebind-stored")
 
 
 def run(prog: Program, rep: Report, tier: str):
@@ -172,6 +314,14 @@ def run(prog: Program, rep: Report, tier: str):
                     sign_tested = True
         rep.check(with_flag is True and without_flag is False, "R19.2", q, f.loc, f"'{key}' slot is added only when `{flag}` is requested", f"'{key}' slot is not tied to the `{flag}` flag (added with flag: {with_flag}, without: {without_flag})", detail=key)
         rep.check(bool(layout_aware), "R19.2", q, f.loc, f"'{key}' is not asked for again when a base already provides it ({layout} of the bases is consulted)", f"the '{key}' slot is requested without looking at the bases: a dataclass deriving from a base without __slots__ already has a {key}, and type() raises TypeError ('{key} slot disallowed: we already got one') -- with the default flags slotted() raises for every subclass of an unslotted dataclass", detail=f"{key}-inherited")
+        # what a plain `@slotted` asks for: no instance dict (the point of the exercise), weak references as before
+        a = outer.node.args
+        defaults = {x.arg: d for x, d in zip(a.kwonlyargs, a.kw_defaults)}
+        defaults.update(dict(zip([x.arg for x in (a.posonlyargs + a.args)][len(a.posonlyargs + a.args) - len(a.defaults) :], a.defaults)))
+        dflt = defaults.get(flag)
+        want = flag == "weakref"
+        if flag in defaults:
+            rep.check(isinstance(dflt, ast.Constant) and dflt.value is want, "R19.2", outer.qualname, outer.loc, f"`{flag}` defaults to {want}", f"`{flag}` defaults to {ast.unparse(dflt) if dflt is not None else 'nothing'}: a plain @slotted " + ("gives every instance a __dict__ nobody requested" if flag == "dict" else "makes instances that cannot be weakly referenced, which instances of the original dataclass can"), detail=f"{key}-default")
         rep.check(not sign_tested, "R19.2", q, f.loc, f"{layout} of a base is tested for being non-zero", f"{layout} of a base is compared by order: the offset is negative for an ordinary heap class (managed dict: -1 on CPython >= 3.11; a negative offset counts from the end of a variable-sized object), so a base that does provide '{key}' is not recognised and type() raises TypeError ('{key} slot disallowed: we already got one')", detail=f"{key}-offset-sign")
     # field defaults removed from class dict
     popped = False
@@ -251,6 +401,7 @@ def run(prog: Program, rep: Report, tier: str):
     wrap_fn = P.nested_function(prog, f, "wrap") if hasattr(P, "nested_function") else None
     rebound = (wrap_fn is not None and rebinds(wrap_fn)) or rebinds(f)
     rep.check(rebound, "R19.3", q, f.loc, "functions of the copied namespace that hold the class in a closure cell are re-bound to the new class", "the rebuilt class shares its functions with the original, closure cells included: a method using zero-argument super() (user __getstate__/__setstate__ that extend the base's) raises TypeError ('super(type, obj): obj must be an instance or subtype of type') on copy / pickle, and the __setattr__ of a frozen dataclass raises that TypeError instead of FrozenInstanceError (typelib.Codec[int](...) cannot be constructed)", detail="class-cells")
+    rebind_rules(prog, rep, wrap_fn or f)
     returned = all(pth.exit[1] == built.get(i) for i, pth in enumerate(rets))
     rep.check(returned, "R19.3", q, f.loc, "the rebuilt class is what wrap() returns", "wrap() does not return the rebuilt class", detail="returns")
     # R19.4
@@ -362,6 +513,9 @@ def run(prog: Program, rep: Report, tier: str):
                     if (tup[0] and is_wrapped) or (not tup[0] and bare):
                         shape = False
             rep.check(shape, "R19.4", hf.qualname, hf.loc, "the pickle hook tells the (dict, slots) pair from a bare instance dict", "the pickle hook assumes the state is always the (dict, slots) pair: when no slot holds a value (a frozen dataclass without fields, dict=True) the default state is the instance __dict__ itself, iterating it yields attribute *names* and copy / pickle raise AttributeError: 'str' object has no attribute 'items'", detail="hook-state-shape")
+            # ... and where the empty halves are filtered out, the state is what is filtered (filter(function, iterable))
+            swapped = [T.show(x)[:50] for hp in hps for tm in hp.all_terms() for x in T.walk(tm) if T.is_call_to(x, "builtins.filter") and len(x[2]) == 2 and T.contains(x[2][0], lambda y: y == st) and not T.contains(x[2][1], lambda y: y == st)]
+            rep.check(not swapped, "R19.4", hf.qualname, hf.loc, "the halves of the state are what the hook filters", f"{swapped[:1]} filters with the state as the *function*: TypeError ('NoneType' object is not iterable) on every copy / unpickle of a frozen instance", detail="hook-state-filter")
     except AnalysisError:
         rep.undecided("R19.4", q, f.loc, "pickle hook helper not found", detail="hook-setter")
     # inherited user hooks count as user hooks: the namespace of the class alone does not show them
